@@ -56,3 +56,15 @@ check("C17", "exploration", "deterministic cluster simulation: per-node supply m
 check("C21", "fault_enumeration", "deterministic cluster simulation: enumerated crash boundaries around the consensus marker write with intra-node interleaving of other chain loops",
   "For each seeded history with a real node-removal operation, every enumerated crash boundary around the snapshot write / consensus marker write, with and without other chain loops interleaved at the boundary (Store-call granularity); after restart the recorded consensus operation must not be older than the durably finalized one. The defect found was repaired (known_findings.json).",
   _r1note + " Interleaving is at Store-call granularity (A3).", "DESIGN.md section 8 C21")
+check("C24", "exploration", "deterministic cluster simulation with message withholding, stalled links and clock jumps; per-step diff of local proposals against the cache queue, bounded liveness after faults stop",
+  "Local proposals are kept in flight by withholding consensus messages on chosen links, partitions (stalled links) and clock jumps past the round gap; after every step the retired proposals' members are looked up (finalization, body, other active proposals, cache queue records); after the last fault every admitted transaction must finalize everywhere within 120 simulated seconds without client retries.",
+  _r1note + " No crash faults and deposits only in these runs (a crash or a forwarded spend of a not-yet-seen input legitimately drops a pending transaction).", "DESIGN.md section 8 C24")
+check("C12", "exploration", "deterministic schedule simulation of concurrent nonce users at cooperative yield points; enumeration for up to 3 tasks; porcupine linearizability + key-recovery oracle",
+  "2-5 tasks share copies of one nonce handle; exactly one runs at a time, parked at yield points inside the check-then-act (hook H7); schedules are explicit decision lists, all enumerated for half of the configurations with at most 3 tasks and seeded otherwise; histories checked with porcupine against a single-assignment register plus direct key-recovery and response verification.",
+  "Interleavings finer than the 4 yield points inside respond() are not explored; curve arithmetic trusted.", "DESIGN.md section 8 C12")
+check("C30", "exploration", "deterministic simulation of connection attempts under clock skew, delay, replay, redirection and bit flips; independent ed25519/recipient/freshness oracle",
+  "Real BuildAuthenticationMessage output travels over a simulated link (delayed, replayed, redirected, reflected, bit-flipped) to the real AuthenticateAs of nodes with skewed and jumping clocks; every acceptance is re-derived independently.",
+  "The QUIC/TLS part of the handshake is a stub; blake3/ed25519 trusted.", "DESIGN.md section 8 C30")
+check("C31", "exploration", "deterministic cluster simulation with signature-heavy admissible transactions; every frame handed to the transport seam measured against the transport maximum",
+  "35+ admissible transactions whose signed envelopes total more than the 32 MiB transport maximum (256 inputs x 64 signatures each) are admitted on one node so that the real batcher forms its batches; every frame any node hands to the transport is measured and bundle frames are parsed back. Few runs per tier (half a million signatures per run). The defect found was repaired (known_findings.json).",
+  _r1note + " QUIC stream framing is a stub; the refuse-before-allocate rule of the receiver is not exercised.", "DESIGN.md section 8 C31")
